@@ -1118,7 +1118,7 @@ pub fn check_ossim(property: &str, tier: &str) -> i32 {
             let (shard, nshards) = if property == "C03" { (s as u64, shards as u64) } else { ((b * shards + s) as u64, nw) };
             jobs.push((
                 vec!["worker".to_string(), "ossim".to_string()],
-                json!({"property": property, "tier": tier, "seed": seed, "boot_seed": hashsim::boot_seed_n(seed, b), "shard": shard, "shards": nshards, "runs": runs, "validate_runs": validate, "real_runs": if property == "C03" { 0 } else { scaled(if thorough { 2_500 } else { 25 }) }}),
+                json!({"property": property, "tier": tier, "seed": seed, "boot_seed": hashsim::boot_seed_n(seed, b), "shard": shard, "shards": nshards, "runs": runs, "validate_runs": validate, "real_runs": if property == "C03" { 0 } else { scaled(if thorough { 2_500 } else { 50 }) }}),
             ));
         }
     }
